@@ -253,6 +253,14 @@ impl<'a> Gen<'a> {
                 e
             };
         }
+        if depth > 0 && self.r.chance(1, 40) {
+            // list literals directly inside a list literal, elements of any type on both sides of them
+            let a = self.any(depth - 1);
+            let b = self.any(depth - 1);
+            let c = self.any(depth - 1);
+            let d = self.any(depth - 1);
+            return Expr::List(vec![a, Expr::List(vec![b, Expr::List(vec![c])]), d]);
+        }
         if depth > 0 && self.knobs.observable > 0 && self.r.chance(1, 60) {
             // a call to a function that exists nowhere: its arguments are still evaluated, in order, first
             let n = 1 + self.r.usize(2);
